@@ -264,3 +264,21 @@ func (m *Machine) Lookup(pkgPath, name string) *ssa.Function {
 	}
 	return nil
 }
+
+// DebugState describes what the current path is doing (racy; diagnostics only).
+func DebugState() string {
+	p := P
+	if p == nil {
+		return "idle"
+	}
+	s := fmt.Sprintf("steps=%d decisions=%d inputs=%s fn=%v", p.steps, len(p.trace), p.renderInputsUnsafe(), p.curFn)
+	if p.solver != nil {
+		s += fmt.Sprintf(" solver-queries=%d solver-time=%v", p.solver.Queries, p.solver.Time)
+	}
+	return s
+}
+
+func (p *path) renderInputsUnsafe() (s string) {
+	defer func() { recover() }()
+	return p.renderInputs()
+}
